@@ -34,8 +34,11 @@ impl MaybeDynSized for AddressHeaderTag {
 //@  novis
 //@  rewrite /(?<![:\w])size_of::</ => /mem::size_of::</ x*
 //@end
-//@extract multiboot2-header/src/address.rs :: impl MaybeDynSized for AddressHeaderTag :: fn dst_len
-//@  novis
+//@extractall multiboot2-header/src/address.rs :: impl MaybeDynSized for AddressHeaderTag
+//@  const BASE_SIZE: skip
+//@  type Header: skip
+//@  fn *: rules R2
+//@  fn dst_len: novis
 //@end
 }
 
@@ -58,8 +61,11 @@ impl MaybeDynSized for EntryAddressHeaderTag {
 //@  novis
 //@  rewrite /(?<![:\w])size_of::</ => /mem::size_of::</ x*
 //@end
-//@extract multiboot2-header/src/entry_address.rs :: impl MaybeDynSized for EntryAddressHeaderTag :: fn dst_len
-//@  novis
+//@extractall multiboot2-header/src/entry_address.rs :: impl MaybeDynSized for EntryAddressHeaderTag
+//@  const BASE_SIZE: skip
+//@  type Header: skip
+//@  fn *: rules R2
+//@  fn dst_len: novis
 //@end
 }
 
@@ -82,8 +88,11 @@ impl MaybeDynSized for ConsoleHeaderTag {
 //@  novis
 //@  rewrite /(?<![:\w])size_of::</ => /mem::size_of::</ x*
 //@end
-//@extract multiboot2-header/src/console.rs :: impl MaybeDynSized for ConsoleHeaderTag :: fn dst_len
-//@  novis
+//@extractall multiboot2-header/src/console.rs :: impl MaybeDynSized for ConsoleHeaderTag
+//@  const BASE_SIZE: skip
+//@  type Header: skip
+//@  fn *: rules R2
+//@  fn dst_len: novis
 //@end
 }
 
@@ -106,8 +115,11 @@ impl MaybeDynSized for FramebufferHeaderTag {
 //@  novis
 //@  rewrite /(?<![:\w])size_of::</ => /mem::size_of::</ x*
 //@end
-//@extract multiboot2-header/src/framebuffer.rs :: impl MaybeDynSized for FramebufferHeaderTag :: fn dst_len
-//@  novis
+//@extractall multiboot2-header/src/framebuffer.rs :: impl MaybeDynSized for FramebufferHeaderTag
+//@  const BASE_SIZE: skip
+//@  type Header: skip
+//@  fn *: rules R2
+//@  fn dst_len: novis
 //@end
 }
 
@@ -130,8 +142,11 @@ impl MaybeDynSized for ModuleAlignHeaderTag {
 //@  novis
 //@  rewrite /(?<![:\w])size_of::</ => /mem::size_of::</ x*
 //@end
-//@extract multiboot2-header/src/module_align.rs :: impl MaybeDynSized for ModuleAlignHeaderTag :: fn dst_len
-//@  novis
+//@extractall multiboot2-header/src/module_align.rs :: impl MaybeDynSized for ModuleAlignHeaderTag
+//@  const BASE_SIZE: skip
+//@  type Header: skip
+//@  fn *: rules R2
+//@  fn dst_len: novis
 //@end
 }
 
@@ -154,8 +169,11 @@ impl MaybeDynSized for EfiBootServiceHeaderTag {
 //@  novis
 //@  rewrite /(?<![:\w])size_of::</ => /mem::size_of::</ x*
 //@end
-//@extract multiboot2-header/src/uefi_bs.rs :: impl MaybeDynSized for EfiBootServiceHeaderTag :: fn dst_len
-//@  novis
+//@extractall multiboot2-header/src/uefi_bs.rs :: impl MaybeDynSized for EfiBootServiceHeaderTag
+//@  const BASE_SIZE: skip
+//@  type Header: skip
+//@  fn *: rules R2
+//@  fn dst_len: novis
 //@end
 }
 
@@ -178,8 +196,11 @@ impl MaybeDynSized for EntryEfi32HeaderTag {
 //@  novis
 //@  rewrite /(?<![:\w])size_of::</ => /mem::size_of::</ x*
 //@end
-//@extract multiboot2-header/src/entry_efi_32.rs :: impl MaybeDynSized for EntryEfi32HeaderTag :: fn dst_len
-//@  novis
+//@extractall multiboot2-header/src/entry_efi_32.rs :: impl MaybeDynSized for EntryEfi32HeaderTag
+//@  const BASE_SIZE: skip
+//@  type Header: skip
+//@  fn *: rules R2
+//@  fn dst_len: novis
 //@end
 }
 
@@ -202,8 +223,11 @@ impl MaybeDynSized for EntryEfi64HeaderTag {
 //@  novis
 //@  rewrite /(?<![:\w])size_of::</ => /mem::size_of::</ x*
 //@end
-//@extract multiboot2-header/src/entry_efi_64.rs :: impl MaybeDynSized for EntryEfi64HeaderTag :: fn dst_len
-//@  novis
+//@extractall multiboot2-header/src/entry_efi_64.rs :: impl MaybeDynSized for EntryEfi64HeaderTag
+//@  const BASE_SIZE: skip
+//@  type Header: skip
+//@  fn *: rules R2
+//@  fn dst_len: novis
 //@end
 }
 
@@ -226,8 +250,11 @@ impl MaybeDynSized for RelocatableHeaderTag {
 //@  novis
 //@  rewrite /(?<![:\w])size_of::</ => /mem::size_of::</ x*
 //@end
-//@extract multiboot2-header/src/relocatable.rs :: impl MaybeDynSized for RelocatableHeaderTag :: fn dst_len
-//@  novis
+//@extractall multiboot2-header/src/relocatable.rs :: impl MaybeDynSized for RelocatableHeaderTag
+//@  const BASE_SIZE: skip
+//@  type Header: skip
+//@  fn *: rules R2
+//@  fn dst_len: novis
 //@end
 }
 
@@ -250,8 +277,11 @@ impl MaybeDynSized for EndHeaderTag {
 //@  novis
 //@  rewrite /(?<![:\w])size_of::</ => /mem::size_of::</ x*
 //@end
-//@extract multiboot2-header/src/end.rs :: impl MaybeDynSized for EndHeaderTag :: fn dst_len
-//@  novis
+//@extractall multiboot2-header/src/end.rs :: impl MaybeDynSized for EndHeaderTag
+//@  const BASE_SIZE: skip
+//@  type Header: skip
+//@  fn *: rules R2
+//@  fn dst_len: novis
 //@end
 }
 
@@ -273,11 +303,14 @@ impl MaybeDynSized for InformationRequestHeaderTag {
     type Header = HeaderTagHeader;
     #[verifier::external_body]
     const BASE_SIZE: usize = INFOREQ_BASE_SIZE;
-//@extract multiboot2-header/src/information_request.rs :: impl MaybeDynSized for InformationRequestHeaderTag :: fn dst_len
-//@  novis
-//@  rewrite /Self::BASE_SIZE/ => /INFOREQ_BASE_SIZE/ x*
-//@  sigrewrite /Self::Metadata/ => /usize/
-//@  prologue proof { assert(size_of::<HeaderTagHeader>() == 8 && size_of::<MbiTagTypeId>() == 4); }
+//@extractall multiboot2-header/src/information_request.rs :: impl MaybeDynSized for InformationRequestHeaderTag
+//@  const BASE_SIZE: skip
+//@  type Header: skip
+//@  fn *: rules R2
+//@  fn dst_len: novis
+//@  fn dst_len: rewrite /Self::BASE_SIZE/ => /INFOREQ_BASE_SIZE/ x*
+//@  fn dst_len: sigrewrite /Self::Metadata/ => /usize/
+//@  fn dst_len: prologue proof { assert(size_of::<HeaderTagHeader>() == 8 && size_of::<MbiTagTypeId>() == 4); }
 //@end
 }
 
